@@ -25,6 +25,9 @@ Kite == [kind |-> "poly", name |-> "kite", radial |-> <<U, U \div 2, U, U \div 2
 \* first radial point is the short one
 Kite2 == [kind |-> "poly", name |-> "kite2", radial |-> <<U \div 2, U, U \div 2, U>>,
           verts |-> << <<0, U \div 2>>, <<U, 0>>, <<0, -(U \div 2)>>, <<-U, 0>> >>]
+\* no mirror line at all: handedness errors change which configurations overlap
+Quad == [kind |-> "poly", name |-> "quad", radial |-> <<U, U \div 2, (4 * U) \div 5, (3 * U) \div 10>>,
+         verts |-> << <<0, U>>, <<U \div 2, 0>>, <<0, -((4 * U) \div 5)>>, <<-((3 * U) \div 10), 0>> >>]
 Circle == [kind |-> "discs", name |-> "circle", r |-> 0, d |-> 0, discs |-> << <<0, 0, U>> >>]
 Trimer(r, d) == [kind |-> "discs", name |-> "trimer", r |-> r, d |-> d,
                  discs |-> << <<0, 0, U>>, <<-d, 0, r>>, <<d, 0, r>> >>]
